@@ -25,6 +25,33 @@ CHECKS = {
         "fake socket, CPython. Says nothing about streams not generated.",
         "DESIGN.md 4 C01, 2.1, 2.3",
     ),
+    "C10": (
+        "pure",
+        "exploration",
+        "runtime monitoring: bounded-exhaustive differential run of each lexical gate through its call site "
+        "(HTTPRequestParser / ChunkedReceiver) against hand-written recognisers; pumping to 10^5 bytes",
+        "Every byte string up to length 2 over all 256 bytes (3 for the numeric gates in thorough) and up to length "
+        "4 (quick) / 5 (thorough) over a per-gate class alphabet is placed in the token position of a real message and "
+        "parsed by the real parser; accept/reject and the resulting number / fields are compared with independent "
+        "recognisers for 1*DIGIT, 1*HEXDIG, chunk-ext, field-line and request-line. exhaustive on those spaces, "
+        "pumped and random strings beyond. Not an automata decision procedure (stated in DESIGN.md 9).",
+        "Trusts the recognisers in vf/ref/request.py; realistic gate defects (anchor, */+, class one byte too wide, "
+        "pre-stripping, match/fullmatch) have witnesses of length <= 3 over the class alphabet.",
+        "DESIGN.md 4 C10",
+    ),
+    "C20": (
+        "pure",
+        "exploration",
+        "runtime monitoring: reference rule table (written from the documentation) run against the real "
+        "Adjustments constructor / parse_args on completely enumerated configuration spaces",
+        "All subsets of the exclusive listen/host/port/sockets/unix_socket group x family toggles, all 2^8 proxy "
+        "trust configurations (plus unknown kinds), socket lists up to length 3, every adjustment x representative "
+        "values x {keyword, --x=v, --x v, --x/--no-x}, and the option names of arguments.rst, runner.rst and the "
+        "help text are enumerated completely and judged by the reference table. exhaustive: true.",
+        "Trusts the reference casts/rules written from docs/arguments.rst; option *names* are compared with the "
+        "docs, prose defaults are not judged (DESIGN.md 6 O-4, O-5).",
+        "DESIGN.md 4 C20",
+    ),
 }
 
 PENDING = {}
